@@ -500,6 +500,11 @@ func init() {
 			m.Apply(pt.Action{Op: "dins", T: "a", P: 0, N: 2, V: "p"})
 			m.Apply(pt.Action{Op: "dins", T: "a", P: 2, N: 2, V: "p"})
 		}
+		if p.Prefix == "tomb" { // non-initial start state: a map with a live key and a removed one
+			m.Apply(pt.Action{Op: "put", K: "a", V: "p"})
+			m.Apply(pt.Action{Op: "put", K: "b", V: "p"})
+			m.Apply(pt.Action{Op: "rem", K: "a"})
+		}
 		if p.Prefix == "nest3" { // non-initial start state: containers two levels below the root, with handles taken
 			m.Apply(pt.Action{Op: "dput", K: "a", V: "n"})               // a = {o:{p,q}}
 			m.Apply(pt.Action{Op: "dput", K: "b", V: "na"})              // b = {l:[..], m}
